@@ -8,6 +8,7 @@ def dispatchLua (line : String) : String :=
   | "run" :: args => handleRun args
   | "exp" :: args => handleExp args
   | "regs" :: args => handleRegs args
+  | "argcls" :: args => handleArgCls args
   | _ => "bad-op"
 
 partial def loopLua (h : IO.FS.Stream) (out : IO.FS.Stream) : IO Unit := do
